@@ -24,16 +24,29 @@ fn res_tok<const D: usize>(w: &mut World<D>, r: &Result<Result<LocateResult, Str
 }
 
 fn one<const D: usize>(id: &str, rng: &mut Rng, out: &mut Out, foreign: CellKey, nq: usize) {
+    one_with::<D>(id, rng, out, foreign, nq, false)
+}
+
+/// `near`: a small simplex 0, 4e_i with interior vertices, queried at points 2^-34 .. 2^-40 away from
+/// its vertices (closer than the 1e-10 duplicate tolerance of insertion, yet with every facet side
+/// exactly decidable: the determinants are ~1e-10 against a band of ~1e-11)
+fn one_with<const D: usize>(id: &str, rng: &mut Rng, out: &mut Out, foreign: CellKey, nq: usize, near: bool) {
     let np = D + 2 + rng.below(match D { 2 => 9, 3 => 7, 4 => 4, _ => 3 }) as usize;
-    let ps = gens::point_set(rng, D, np);
+    let ps = if near {
+        let mut pts: Vec<Vec<f64>> = vec![vec![0.0; D]];
+        for a in 0..D { let mut p = vec![0.0; D]; p[a] = 4.0; pts.push(p); }
+        pts.push(vec![1.0; D]);
+        if rng.chance(1, 2) { let mut p = vec![0.5; D]; p[0] = 1.5; pts.push(p); }
+        gens::PointSet { pts, family: "near_vertex", gp: true }
+    } else { gens::point_set(rng, D, np) };
     let Some(mut w): Option<World<D>> = hist::start_built::<D>(&ps.pts, 1, rng) else { return };
     // a few incremental insertions so the state is not only batch-built
-    for _ in 0..rng.below(4) {
+    for _ in 0..(if near { 0 } else { rng.below(4) }) {
         let (p, _) = w.pick_point(rng, 8);
         let _ = w.do_insert(p, false, rng);
     }
     // a stale key: remember a cell key, then make it disappear with one more insertion inside it
-    let stale: Option<CellKey> = {
+    let stale: Option<CellKey> = if near { None } else {
         let before: Vec<CellKey> = w.dt.cells().map(|(k, _)| k).collect();
         let (p, _) = w.pick_point(rng, 6);
         let _ = w.do_insert(p, false, rng);
@@ -45,7 +58,16 @@ fn one<const D: usize>(id: &str, rng: &mut Rng, out: &mut Out, foreign: CellKey,
     // queries: vertices, midpoints, averages of cell vertices, half-grid points, far outside points
     let live = w.live_coords();
     let mut queries: Vec<[f64; D]> = Vec::new();
-    for _ in 0..nq {
+    if near {
+        for v in &live {
+            for e in [-34i32, -37, -40] {
+                let mut q = *v;
+                for x in q.iter_mut() { *x += 2f64.powi(e) * [1.0, -1.0, 0.0][rng.below(3) as usize]; }
+                if q != *v { queries.push(q); }
+            }
+        }
+    }
+    for _ in 0..(if near { 2 } else { nq }) {
         let mut q = [0.0f64; D];
         match rng.below(6) {
             0 => q = *rng.pick(&live),
@@ -122,6 +144,11 @@ pub fn run(cfg: &Cfg, rng: &mut Rng, out: &mut Out) {
     let fpts = gens::to_f(&gens::general_position(rng, 2, 6, 8), 1.0, 0.0);
     let fw: World<2> = hist::start_built::<2>(&fpts, 1, rng).expect("foreign triangulation");
     let foreign = fw.dt.cells().map(|(k, _)| k).last().unwrap();
+    for i in 0..(if thorough { 8 } else { 2 }) {
+        one_with::<2>(&format!("nv2_{i}"), rng, out, foreign, 0, true);
+        one_with::<3>(&format!("nv3_{i}"), rng, out, foreign, 0, true);
+        one_with::<4>(&format!("nv4_{i}"), rng, out, foreign, 0, true);
+    }
     let n = if thorough { 400 } else { 120 };
     let nq = if thorough { 40 } else { 20 };
     for i in 0..n {
